@@ -12,12 +12,13 @@ Import ListNotations.
 Section Vars.
   Variable qn : str -> bool.                      (* the names that may be mentioned *)
   Variable cm cu : list marker -> bool.           (* what the child list of a conjunction / disjunction must satisfy *)
+  Variable gv : list str -> bool.                 (* what the value list of a grouped ==/!= atom must satisfy *)
 
   Fixpoint W (m : marker) : bool :=
     match m with
     | MAny | MEmpty => true
     | MAtom a => qn (a_name a)
-    | MEqU n _ | MNeM n _ => qn n
+    | MEqU n vs | MNeM n vs => qn n && gv vs
     | MMulti l => cm l && (fix go (l : list marker) : bool := match l with [] => true | x :: t => W x && go t end) l
     | MUnion l => cu l && (fix go (l : list marker) : bool := match l with [] => true | x :: t => W x && go t end) l
     end.
@@ -33,6 +34,10 @@ Section Vars.
   (* the constructors establish the child-list conditions *)
   Hypothesis cm_mk : forall l, forallb W l = true -> cm (flatten sub_multi l []) = true.
   Hypothesis cu_mk : forall l, forallb W l = true -> cu (flatten sub_union l []) = true.
+  (* every value list the single-marker operations build goes through OrderedSet's constructor *)
+  Hypothesis gv_oset : forall l, gv (oset l) = true.
+  Lemma W_equ n vs : W (MEqU n vs) = qn n && gv vs. Proof. reflexivity. Qed.
+  Lemma W_nem n vs : W (MNeM n vs) = qn n && gv vs. Proof. reflexivity. Qed.
 
   (* ---- flatten / constructors ---- *)
   Lemma dedup_fold_W sub : forall acc, forallb W sub = true -> forallb W acc = true ->
@@ -64,10 +69,10 @@ Section Vars.
   Lemma perm_W l l' : Permutation l l' -> forallb W l = true -> forallb W l' = true.
   Proof. intros P H. apply forallb_forall. intros x Hx. rewrite forallb_forall in H. apply H. eapply Permutation_in; [apply Permutation_sym; exact P | exact Hx]. Qed.
 
-  Lemma equ_replace_W n vs : qn n = true -> W (equ_replace n vs) = true.
-  Proof. intros H. destruct vs as [|v [|w t]]; cbn; auto. Qed.
-  Lemma nem_replace_W n vs : qn n = true -> W (nem_replace n vs) = true.
-  Proof. intros H. destruct vs as [|v [|w t]]; cbn; auto. Qed.
+  Lemma equ_replace_W n vs : qn n = true -> gv vs = true -> W (equ_replace n vs) = true.
+  Proof. intros H G. destruct vs as [|v [|w t]]; cbn [equ_replace W a_name]; auto. rewrite H, G. reflexivity. Qed.
+  Lemma nem_replace_W n vs : qn n = true -> gv vs = true -> W (nem_replace n vs) = true.
+  Proof. intros H G. destruct vs as [|v [|w t]]; cbn [nem_replace W a_name]; auto. rewrite H, G. reflexivity. Qed.
 
   Section Ops.
     Variable vmerge : bool -> atom -> atom -> option marker.
@@ -88,8 +93,8 @@ Section Vars.
         destruct (mop_eqb o (a_op b) && str_eqb v (a_value b)); [injection H as <-; exact Hb|]. injection H as <-. exact Ha.
       - injection H as <-. reflexivity.
       - injection H as <-. reflexivity.
-      - destruct (mop_eqb (a_op a) MEq && mop_eqb (a_op b) MEq && negb k); [injection H as <-; exact Ha|].
-        destruct (mop_eqb (a_op a) MNe && mop_eqb (a_op b) MNe && k); [injection H as <-; exact Ha | discriminate].
+      - destruct (mop_eqb (a_op a) MEq && mop_eqb (a_op b) MEq && negb k); [injection H as <-; rewrite W_equ, Ha, gv_oset; reflexivity|].
+        destruct (mop_eqb (a_op a) MNe && mop_eqb (a_op b) MNe && k); [injection H as <-; rewrite W_nem, Ha, gv_oset; reflexivity | discriminate].
     Qed.
 
     Lemma single_ops_W a b r : W a = true -> W b = true ->
@@ -99,31 +104,35 @@ Section Vars.
       intros Ha Hb H.
       assert (Two : forall x y, W x = true -> W y = true -> W (mk_multi [x; y]) = true /\ W (mk_union [x; y]) = true).
       { intros x y Hx Hy. split; [apply mk_multi_W | apply mk_union_W]; cbn; rewrite Hx, Hy; reflexivity. }
-      assert (EqA : forall n vs o r0, equ_and vcontains n vs o = Some r0 -> qn n = true -> W o = true -> W r0 = true).
-      { intros n vs o r0 E Hn Ho. unfold equ_and in E. destruct (negb (is_single o)); [discriminate|].
+      assert (G : forall n vs, W (MEqU n vs) = true -> qn n = true /\ gv vs = true).
+      { intros n vs Hg. rewrite W_equ in Hg. apply andb_prop in Hg. exact Hg. }
+      assert (Gr : forall n vs, qn n = true -> gv vs = true -> W (MEqU n vs) = true /\ W (MNeM n vs) = true).
+      { intros n vs Hn Hg. rewrite W_equ, W_nem, Hn, Hg. split; reflexivity. }
+      assert (EqA : forall n vs o r0, equ_and vcontains n vs o = Some r0 -> W (MEqU n vs) = true -> W o = true -> W r0 = true).
+      { intros n vs o r0 E Hs Ho. destruct (G n vs Hs) as [Hn Hg]. unfold equ_and in E. destruct (negb (is_single o)); [discriminate|].
         destruct (negb (str_eqb n (single_name o)) || rev_in_m o); [injection E as <-; apply (Two (MEqU n vs) o); auto|].
-        destruct o; try discriminate; injection E as <-; apply equ_replace_W; exact Hn. }
-      assert (EqO : forall n vs o r0, equ_or vcontains n vs o = Some r0 -> qn n = true -> W o = true -> W r0 = true).
-      { intros n vs o r0 E Hn Ho. unfold equ_or in E. destruct (negb (is_single o)); [discriminate|].
+        destruct o; try discriminate; injection E as <-; apply equ_replace_W; try exact Hn; apply gv_oset. }
+      assert (EqO : forall n vs o r0, equ_or vcontains n vs o = Some r0 -> W (MEqU n vs) = true -> W o = true -> W r0 = true).
+      { intros n vs o r0 E Hs Ho. destruct (G n vs Hs) as [Hn Hg]. unfold equ_or in E. destruct (negb (is_single o)); [discriminate|].
         destruct (negb (str_eqb n (single_name o)) || rev_in_m o); [injection E as <-; apply (Two (MEqU n vs) o); auto|].
         destruct o as [| |x|n' vs'|n' vs'|l|l]; try discriminate.
         - destruct (a_op x); try (destruct (forallb (atom_contains vcontains x) vs); injection E as <-; [exact Ho | apply (Two (MEqU n vs) (MAtom x)); auto]).
-          + destruct (mem_str (a_value x) vs); injection E as <-; exact Hn.
+          + destruct (mem_str (a_value x) vs); injection E as <-; [exact Hs | exact (proj1 (Gr n _ Hn (gv_oset _)))].
           + destruct (mem_str (a_value x) vs); injection E as <-; [reflexivity | exact Ho].
-        - injection E as <-. exact Hn. }
-      assert (NeA : forall n vs o r0, nem_and vcontains n vs o = Some r0 -> qn n = true -> W o = true -> W r0 = true).
-      { intros n vs o r0 E Hn Ho. unfold nem_and in E. destruct (negb (is_single o)); [discriminate|].
+        - injection E as <-. exact (proj1 (Gr n _ Hn (gv_oset _))). }
+      assert (NeA : forall n vs o r0, nem_and vcontains n vs o = Some r0 -> W (MNeM n vs) = true -> W o = true -> W r0 = true).
+      { intros n vs o r0 E Hs Ho. destruct (G n vs Hs) as [Hn Hg]. unfold nem_and in E. destruct (negb (is_single o)); [discriminate|].
         destruct (negb (str_eqb n (single_name o)) || rev_in_m o); [injection E as <-; apply (Two (MNeM n vs) o); auto|].
         destruct o as [| |x|n' vs'|n' vs'|l|l]; try discriminate.
         - destruct (a_op x); try (destruct (negb (existsb (atom_contains vcontains x) vs)); injection E as <-; [exact Ho | apply (Two (MNeM n vs) (MAtom x)); auto]).
           + destruct (mem_str (a_value x) vs); injection E as <-; [reflexivity | exact Ho].
-          + destruct (mem_str (a_value x) vs); injection E as <-; exact Hn.
-        - injection E as <-. apply equ_replace_W. exact Ho.
-        - injection E as <-. exact Hn. }
-      assert (NeO : forall n vs o r0, nem_or vcontains n vs o = Some r0 -> qn n = true -> W o = true -> W r0 = true).
-      { intros n vs o r0 E Hn Ho. unfold nem_or in E. destruct (negb (is_single o)); [discriminate|].
+          + destruct (mem_str (a_value x) vs); injection E as <-; [exact Hs | exact (proj2 (Gr n _ Hn (gv_oset _)))].
+        - injection E as <-. apply equ_replace_W; [exact (proj1 (G _ _ Ho)) | apply gv_oset].
+        - injection E as <-. exact (proj2 (Gr n _ Hn (gv_oset _))). }
+      assert (NeO : forall n vs o r0, nem_or vcontains n vs o = Some r0 -> W (MNeM n vs) = true -> W o = true -> W r0 = true).
+      { intros n vs o r0 E Hs Ho. destruct (G n vs Hs) as [Hn Hg]. unfold nem_or in E. destruct (negb (is_single o)); [discriminate|].
         destruct (negb (str_eqb n (single_name o)) || rev_in_m o); [injection E as <-; apply (Two (MNeM n vs) o); auto|].
-        destruct o; try discriminate; injection E as <-; apply nem_replace_W; exact Hn. }
+        destruct o; try discriminate; injection E as <-; apply nem_replace_W; try exact Hn; apply gv_oset. }
       destruct H as [H|[H|[H|H]]].
       - destruct a as [| |x|n vs|n vs|l|l]; try discriminate H; cbn [single_and_l] in H.
         + destruct b as [| |y|?|?|?|?]; try discriminate H. injection H as <-. unfold atom_and.
@@ -356,6 +365,12 @@ Section Vars.
   End Step.
 End Vars.
 
+(* the value lists of grouped atoms are unconstrained in the instances below (gv := gvT); Proofs/MarkerHashSound-style
+   instances that constrain them use level_inv directly *)
+Definition gvT (_ : list str) : bool := true.
+Lemma gvT_oset l : gvT (oset l) = true. Proof. reflexivity. Qed.
+
+
 (* ---- only() / exclude() ---- *)
 Section OnlyExclude.
   Variable vmerge : bool -> atom -> atom -> option marker.
@@ -363,17 +378,17 @@ Section OnlyExclude.
   Variable perm : list marker -> list marker.
   Variable cm cu : list marker -> bool.
   Variable qn : str -> bool.
-  Hypothesis cm_mk : forall l, forallb (W qn cm cu) l = true -> cm (flatten sub_multi l []) = true.
-  Hypothesis cu_mk : forall l, forallb (W qn cm cu) l = true -> cu (flatten sub_union l []) = true.
+  Hypothesis cm_mk : forall l, forallb (W qn cm cu gvT) l = true -> cm (flatten sub_multi l []) = true.
+  Hypothesis cu_mk : forall l, forallb (W qn cm cu gvT) l = true -> cu (flatten sub_union l []) = true.
   Hypothesis vmerge_winv : forall k a b r, vmerge k a b = Some r ->
-    qn (a_name a) = true -> qn (a_name b) = true -> W qn cm cu r = true.
+    qn (a_name a) = true -> qn (a_name b) = true -> W qn cm cu gvT r = true.
   Hypothesis perm_perm : forall l, Permutation (perm l) l.
 
-  Lemma W_single m : is_single m = true -> W qn cm cu m = qn (single_name m).
-  Proof. destruct m; try discriminate; reflexivity. Qed.
+  Lemma W_single m : is_single m = true -> W qn cm cu gvT m = qn (single_name m).
+  Proof. destruct m; try discriminate; cbn [W single_name gvT]; rewrite ?andb_true_r; reflexivity. Qed.
 
-  Lemma mapM_all_w {A} (g : A -> pyres marker) l : (forall x r, g x = Ret r -> W qn cm cu r = true) ->
-    forall rs, mapM g l = Ret rs -> forallb (W qn cm cu) rs = true.
+  Lemma mapM_all_w {A} (g : A -> pyres marker) l : (forall x r, g x = Ret r -> W qn cm cu gvT r = true) ->
+    forall rs, mapM g l = Ret rs -> forallb (W qn cm cu gvT) rs = true.
   Proof.
     intros Hg. induction l as [|x l IH]; intros rs H; cbn [mapM] in H; [injection H as <-; reflexivity|].
     destruct (g x) as [y| |] eqn:E; try discriminate. cbn [bind] in H. destruct (mapM g l) as [ys| |] eqn:Es; try discriminate. cbn [bind] in H.
@@ -381,12 +396,12 @@ Section OnlyExclude.
   Qed.
 
   Theorem monly_inv names fuel : (forall n, mem_str n names = true -> qn n = true) ->
-    forall m r, monly vmerge vcontains perm fuel names m = Ret r -> W qn cm cu r = true.
+    forall m r, monly vmerge vcontains perm fuel names m = Ret r -> W qn cm cu gvT r = true.
   Proof.
     intros Hq.
     induction fuel as [|f IH]; intros m r H; [discriminate|]. cbn [monly] in H.
-    destruct (level_inv qn cm cu cm_mk cu_mk vmerge vcontains perm vmerge_winv perm_perm f) as (_ & _ & Hmul & Huni & _).
-    assert (Leaf : forall s, is_single s = true -> (if mem_str (single_name s) names then Ret s else Ret MAny) = Ret r -> W qn cm cu r = true).
+    destruct (level_inv qn cm cu gvT cm_mk cu_mk gvT_oset vmerge vcontains perm vmerge_winv perm_perm f) as (_ & _ & Hmul & Huni & _).
+    assert (Leaf : forall s, is_single s = true -> (if mem_str (single_name s) names then Ret s else Ret MAny) = Ret r -> W qn cm cu gvT r = true).
     { intros s Hs E. destruct (mem_str (single_name s) names) eqn:Em; injection E as <-; [rewrite (W_single s Hs); exact (Hq _ Em) | reflexivity]. }
     destruct m as [| |a|n vs|n vs|l|l].
     - injection H as <-. reflexivity.
@@ -400,8 +415,8 @@ Section OnlyExclude.
       exact (Huni _ _ H (mapM_all_w _ l IH ms Em)).
   Qed.
 
-  Lemma flat_some_W (new : list (option marker)) : (forall x, In (Some x) new -> W qn cm cu x = true) ->
-    forallb (W qn cm cu) (flat_map (fun o => match o with Some x => [x] | None => [] end) new) = true.
+  Lemma flat_some_W (new : list (option marker)) : (forall x, In (Some x) new -> W qn cm cu gvT x = true) ->
+    forallb (W qn cm cu gvT) (flat_map (fun o => match o with Some x => [x] | None => [] end) new) = true.
   Proof.
     induction new as [|[x|] new IH]; intros H; cbn [flat_map app]; [reflexivity | |].
     - cbn. rewrite (H x (or_introl eq_refl)), IH; [reflexivity|]. intros y Hy. apply H. right. exact Hy.
@@ -417,12 +432,12 @@ Section OnlyExclude.
   Qed.
 
   Theorem mexclude_inv name fuel : (forall n, str_eqb n name = false -> qn n = true) ->
-    forall m r, mexclude vmerge vcontains perm fuel name m = Ret r -> W qn cm cu r = true.
+    forall m r, mexclude vmerge vcontains perm fuel name m = Ret r -> W qn cm cu gvT r = true.
   Proof.
     intros Hq.
     induction fuel as [|f IH]; intros m r H; [discriminate|]. cbn [mexclude] in H.
-    destruct (level_inv qn cm cu cm_mk cu_mk vmerge vcontains perm vmerge_winv perm_perm f) as (_ & _ & Hmul & Huni & _).
-    assert (Leaf : forall s, is_single s = true -> (if str_eqb (single_name s) name then Ret MAny else Ret s) = Ret r -> W qn cm cu r = true).
+    destruct (level_inv qn cm cu gvT cm_mk cu_mk gvT_oset vmerge vcontains perm vmerge_winv perm_perm f) as (_ & _ & Hmul & Huni & _).
+    assert (Leaf : forall s, is_single s = true -> (if str_eqb (single_name s) name then Ret MAny else Ret s) = Ret r -> W qn cm cu gvT r = true).
     { intros s Hs E. destruct (str_eqb (single_name s) name) eqn:Em; injection E as <-; [reflexivity | rewrite (W_single s Hs); exact (Hq _ Em)]. }
     destruct m as [| |a|n vs|n vs|l|l].
     - injection H as <-. reflexivity.
@@ -436,7 +451,7 @@ Section OnlyExclude.
       destruct (mexclude vmerge vcontains perm f name x) as [rx| |] eqn:Er; try discriminate Ex. cbn [bind] in Ex.
       destruct (is_empty rx); [discriminate Ex|]. injection Ex as <-. exact (IH _ _ Er).
     - match type of H with (bind (mapM ?g l) _ = _) => destruct (mapM g l) as [new| |] eqn:Em; try discriminate H; cbn [bind] in H;
-        assert (Qnew : forallb (W qn cm cu) (flat_map (fun o => match o with Some x => [x] | None => [] end) new) = true) end.
+        assert (Qnew : forallb (W qn cm cu gvT) (flat_map (fun o => match o with Some x => [x] | None => [] end) new) = true) end.
       { apply flat_some_W. intros y Hy.
         match type of Em with mapM ?g l = _ => destruct (mapM_opt_In_w g l new Em y Hy) as (x & _ & Ex) end.
         cbv beta in Ex. destruct (is_single x && str_eqb (single_name x) name); [discriminate Ex|].
@@ -493,7 +508,7 @@ Definition cuW (l : list marker) : bool := distb l && forallb (fun x => negb (is
 
 Section Shape.
   Variable qn : str -> bool.
-  Notation Wf := (W qn cmW cuW).
+  Notation Wf := (W qn cmW cuW gvT).
 
   Lemma dedup_fold_no (p : marker -> bool) sub : forall acc, forallb p sub = true -> forallb p acc = true ->
     forallb p (fold_left (fun ac s => if mem_marker s ac then ac else ac ++ [s]) sub acc) = true.
@@ -544,8 +559,8 @@ Proof.
 Qed.
 
 (* well-shaped markers: every conjunction / disjunction, at any depth, has pairwise distinct children none of which is a compound of the same kind *)
-Definition shaped (m : marker) : bool := W (fun _ => true) cmW cuW m.
-Lemma W_shaped qn m : W qn cmW cuW m = true -> shaped m = true.
+Definition shaped (m : marker) : bool := W (fun _ => true) cmW cuW gvT m.
+Lemma W_shaped qn m : W qn cmW cuW gvT m = true -> shaped m = true.
 Proof.
   unfold shaped. induction m as [| |a|n vs|n vs|l IH|l IH] using marker_indW; intros H; try reflexivity.
   - rewrite W_multi in *. apply andb_prop in H as [H1 H2]. rewrite H1. cbn [andb]. apply forallb_forall. intros x Hx.
@@ -566,11 +581,11 @@ Section ShapeOps.
 
   Lemma leaf_shaped r : is_multi r = false -> is_union r = false -> shaped r = true.
   Proof. destruct r; try reflexivity; discriminate. Qed.
-  Lemma vmerge_shaped k a b r : vmerge k a b = Some r -> qt (a_name a) = true -> qt (a_name b) = true -> W qt cmW cuW r = true.
+  Lemma vmerge_shaped k a b r : vmerge k a b = Some r -> qt (a_name a) = true -> qt (a_name b) = true -> W qt cmW cuW gvT r = true.
   Proof. intros E _ _. destruct (vmerge_leaf _ _ _ _ E) as [H1 H2]. exact (leaf_shaped r H1 H2). Qed.
 
-  Lemma level_shaped n : inv_callees qt cmW cuW (level vmerge vcontains perm n).
-  Proof. exact (level_inv qt cmW cuW (cm_mk_W qt) (cu_mk_W qt) vmerge vcontains perm vmerge_shaped perm_perm n). Qed.
+  Lemma level_shaped n : inv_callees qt cmW cuW gvT (level vmerge vcontains perm n).
+  Proof. exact (level_inv qt cmW cuW gvT (cm_mk_W qt) (cu_mk_W qt) gvT_oset vmerge vcontains perm vmerge_shaped perm_perm n). Qed.
 
   Theorem mand_shaped fuel a b r : mand vmerge vcontains perm fuel a b = Ret r -> shaped a = true -> shaped b = true -> shaped r = true.
   Proof. destruct (level_shaped fuel) as (H & _). exact (H a b r). Qed.
